@@ -167,13 +167,23 @@ MUTANTS = [
  {"name": "silent-asyncstd-config-does-not-build", "props": ["C03"], "expect": "silent",
   "edits": [("ractor/src/concurrency/async_std_primitives.rs", "pub fn interval(dur: Duration) -> Interval {", "pub fn interval(dur: Duration) -> Interval { let _x: u8 = \"not a number\";")]},
  {"name": "silent-status-gates-equivalent-forms", "props": ["C05", "C07", "C02", "C06", "C10"], "expect": "silent",
-  "edits": [("ractor/src/actor/supervision.rs", "        if child.get_status() >= super::actor_cell::ActorStatus::Draining\n            || supervisor.get_status() >= super::actor_cell::ActorStatus::Draining",
-             "        if child.get_status() > super::actor_cell::ActorStatus::Upgrading\n            || !(supervisor.get_status() < super::actor_cell::ActorStatus::Draining)"),
+  "edits": [("ractor/src/actor/supervision.rs", "        if child.get_status() >= super::actor_cell::ActorStatus::Stopping\n            || supervisor.get_status() >= super::actor_cell::ActorStatus::Draining",
+             "        if child.get_status() > super::actor_cell::ActorStatus::Draining\n            || !(supervisor.get_status() < super::actor_cell::ActorStatus::Draining)"),
             ("ractor/src/actor/actor_properties.rs", "        if status >= ActorStatus::Draining {\n            // if currently draining", "        if status > ActorStatus::Upgrading {\n            // if currently draining"),
             ("ractor/src/actor/actor_cell.rs", "        if status >= ActorStatus::Stopping && previous_status < ActorStatus::Stopping {", "        if status > ActorStatus::Draining && previous_status <= ActorStatus::Draining {"),
-            ("ractor/src/actor/actor_cell.rs", "            if actor.get_status() <= ActorStatus::Draining {", "            if actor.get_status() < ActorStatus::Stopping {")]},
+            ("ractor/src/actor/actor_cell.rs", "            if actor.get_status() < ActorStatus::Stopped {", "            if actor.get_status() <= ActorStatus::Stopping {")]},
  {"name": "c05-revert-f3-terminate-skips-draining", "props": ["C05"], "rules": ["C05.R6"],
-  "edits": [("ractor/src/actor/actor_cell.rs", "            if actor.get_status() <= ActorStatus::Draining {", "            if actor.get_status() <= ActorStatus::Upgrading {")]},
+  "edits": [("ractor/src/actor/actor_cell.rs", "            if actor.get_status() < ActorStatus::Stopped {", "            if actor.get_status() <= ActorStatus::Upgrading {")]},
+ {"name": "c05-revert-f7-terminate-skips-stopping", "props": ["C05"], "rules": ["C05.R6"],
+  "edits": [("ractor/src/actor/actor_cell.rs", "            if actor.get_status() < ActorStatus::Stopped {", "            if actor.get_status() <= ActorStatus::Draining {")]},
+ {"name": "c04-revert-f5-killed-reports-state", "props": ["C04"], "rules": ["C04.R6"],
+  "edits": [("ractor/src/actor.rs", "        if was_killed {\n            return Err(ActorErr::Cancelled);\n        }\n\n        // we didn't exit in error mode, call `post_stop`\n        {", "        if !was_killed {")]},
+ {"name": "c04-revert-f6-post_start-called-outside-caught-future", "props": ["C04"], "rules": ["C04.R1"],
+  "edits": [("ractor/src/actor.rs", "        let future = async move { handler.post_start(myself, state).await };", "        let future = handler.post_start(myself, state);")]},
+ {"name": "c07-revert-f4-start-refuses-drained-cell", "props": ["C07"], "rules": ["C07.R8"],
+  "edits": [("ractor/src/actor.rs", "            ActorStatus::Unstarted | ActorStatus::Draining\n        ) {", "            ActorStatus::Unstarted\n        ) {")]},
+ {"name": "c07-revert-f4-link-refuses-draining-child", "props": ["C07"], "rules": ["C07.R8"],
+  "edits": [("ractor/src/actor/supervision.rs", "        if child.get_status() >= super::actor_cell::ActorStatus::Stopping", "        if child.get_status() >= super::actor_cell::ActorStatus::Draining")]},
  {"name": "c10-revert-f2-proxy-unregisters-name", "props": ["C10"], "rules": ["C10.R6"],
   "edits": [("ractor/src/actor/actor_cell.rs", "            if self.get_id().is_local() {\n                if let Some(name) = self.get_name() {", "            if true {\n                if let Some(name) = self.get_name() {")]},
  {"name": "c05-link-admits-draining-supervisor", "props": ["C05"], "rules": ["C05.R4"],
